@@ -5,6 +5,7 @@ handler begins with a statement that takes a time step (or aborts), sub-behaviou
 recursive.  Conditions are names in a step-indexed truth table; "T"/"F" are constant."""
 
 import itertools
+import json
 import random
 
 DTS = [[1, 1], [1, 2], [1, 4], [2, 1]]
@@ -537,6 +538,24 @@ def dynobj_core():
                 })
                 k += 1
     return cases
+
+
+def idle_core():
+    """Steps in which NO agent has a behaviour: the action dict is empty, and the step still consists of
+    executeActions (with the empty dict), one simulator step, the clock increment and the read-back.  The only
+    object has no behaviour (compose blocks, monitors and records still run); or agents appear only when a
+    sub-scenario creates them, so the first steps have none."""
+    out = []
+    for c in nested_core()[::7]:
+        c = json.loads(json.dumps(c))
+        c["agents"] = [0]
+        c["sched"] = [[1]]
+        out.append(c)
+    for c in dynobj_core()[::5]:
+        c = json.loads(json.dumps(c))
+        c["agents"] = [0]
+        out.append(c)
+    return out
 
 
 def duration_core():
